@@ -92,6 +92,10 @@ func absRV(sb *strings.Builder, v reflect.Value, seen map[uintptr]int, o valAbsO
 			sb.WriteString("ctime(" + timeKey(x) + ")")
 			return
 		case time.Time:
+			if o.ByValue { // times compared by value: the instant (time.Time.Equal)
+				sb.WriteString("gotime(" + x.UTC().Format(time.RFC3339Nano) + ")")
+				return
+			}
 			sb.WriteString("gotime(" + x.Format(time.RFC3339Nano) + "|" + x.Location().String() + ")")
 			return
 		case *url.URL:
